@@ -124,6 +124,101 @@ def gen_large(r, tier, op):
     return "rs %d %d %d %d %d %s" % (seed, n, lin, circ, quat, " ".join(hexd(x) for x in w)), {"op": "rs", "style": style, "n": n, "quat": quat, "circ": circ}
 
 
+CHUNK = 256
+
+
+def _chunk_weights(r, style, n):
+    if style == "chunk-uniform":
+        return [-math.log(n)] * n
+    if style == "chunk-lastblock":
+        # all the mass of the tail sits in the last block of 256 (or in the single particle after it)
+        xs = [r.uniform(-9, -7) for _ in range(n)]
+        for i in range(max(0, ((n - 1) // CHUNK) * CHUNK), n):
+            xs[i] = r.uniform(-1, 0)
+        return normalise(xs)
+    if style == "chunk-blockties":
+        # the same value at every block boundary (positions 255/256, 511/512, ...), different entries between
+        xs = [r.uniform(-3, 0) for _ in range(n)]
+        v = r.uniform(-3, 0)
+        for b in range(CHUNK, n + 1, CHUNK):
+            xs[b - 1] = v
+            if b < n:
+                xs[b] = v
+        xs[1 % n] = xs[n - 1]
+        return normalise(xs)
+    return normalise([r.uniform(-4, 0) for _ in range(n)])
+
+
+def gen_chunk(r, tier):
+    """particle counts at the boundaries of blocked accumulation: every multiple of 256 up to 4096 in EVERY run (rs), a rotating
+    subset at +-1, and prior-mixing cases in which N, the kept count N - k, or both are multiples of 256"""
+    out = []
+    styles = ["chunk-uniform", "chunk-lastblock", "chunk-blockties", "chunk-random"]
+    mults = list(range(CHUNK, 4096 + 1, CHUNK))
+    if tier != "quick":
+        mults += [8192, 16384]
+    off = r.randrange(4)
+    for q, n in enumerate(mults):
+        style = styles[(q + off) % 4]
+        lin, circ, quat = r.choice([(1, 0, 0), (2, 1, 0), (1, 1, 1), (0, 1, 0)])
+        w = _chunk_weights(r, style, n)
+        out.append(("rs %d %d %d %d %d %s" % (r.randrange(1, 2 ** 32), n, lin, circ, quat, " ".join(hexd(x) for x in w)),
+                    {"op": "rs", "style": style, "n": n, "quat": quat, "circ": circ}))
+    for n0 in r.sample(mults, 4) + [CHUNK, 4096]:
+        for n in (n0 - 1, n0 + 1):
+            style = r.choice(styles)
+            w = _chunk_weights(r, style, n)
+            out.append(("rs %d %d 1 0 0 %s" % (r.randrange(1, 2 ** 32), n, " ".join(hexd(x) for x in w)),
+                        {"op": "rs", "style": style + "+-1", "n": n, "quat": 0, "circ": 0}))
+    for n, ratio in [(320, 0.2), (512, 0.5), (1024, 0.25), (1280, 0.2), (2048, 0.5), (4096, 0.25), (4096, 0.5), (4352, 0.0625)]:
+        style = r.choice(styles)
+        w = _chunk_weights(r, style, n)
+        lin, circ, quat = r.choice([(1, 0, 0), (2, 1, 0), (1, 1, 1)])
+        out.append(("rwp %d %d %d %d %d %s %s" % (r.randrange(1, 2 ** 32), n, lin, circ, quat, hexd(ratio), " ".join(hexd(x) for x in w)),
+                    {"op": "rwp", "style": style, "n": n, "quat": quat, "circ": circ, "ratio": ratio}))
+    return out
+
+
+def gen_tie_positions(r, tier):
+    """exact weight ties at EVERY position: for N = 2..6 every pair (i, j) carries one value (bitwise), the other entries are
+    distinct; the tied value takes every rank (lowest .. largest).  For the prior-mixing variant the cut floor(ratio N) is placed
+    at every rank as well, so the tie sits below, across and above the cut.  Larger N: w(1) == w(N-1), w(0) == w(N-1) with
+    different entries between."""
+    out = []
+    for n in range(2, 7):
+        for i in range(n):
+            for j in range(i + 1, n):
+                for rank in range(n - 1):                      # rank of the tied value among the n - 1 distinct values
+                    vals = sorted(r.sample(range(1, 40), n - 1))
+                    others = [v for q, v in enumerate(vals) if q != rank]
+                    r.shuffle(others)
+                    xs, it = [], iter(others)
+                    for p in range(n):
+                        xs.append(vals[rank] if p in (i, j) else next(it))
+                    w = normalise([math.log(x / 64.0) for x in xs])
+                    if hexd(w[i]) != hexd(w[j]):
+                        continue
+                    out.append(("rs %d %d 1 1 0 %s" % (r.randrange(1, 2 ** 32), n, " ".join(hexd(x) for x in w)),
+                                {"op": "rs", "style": "tie-pair", "n": n, "quat": 0, "circ": 1}))
+                    for k in range(1, n):
+                        if tier == "quick" and n >= 5 and (k + i + j + rank) % 2:
+                            continue
+                        ratio = (k + 0.5) / n
+                        out.append(("rwp %d %d 1 1 0 %s %s" % (r.randrange(1, 2 ** 32), n, hexd(ratio), " ".join(hexd(x) for x in w)),
+                                    {"op": "rwp", "style": "tie-pair", "n": n, "quat": 0, "circ": 1, "ratio": ratio}))
+    for n in [7, 12, 31, 64, 100, 257]:
+        for a, b in [(1, n - 1), (0, n - 1), (n // 2, n - 1)]:
+            xs = [r.uniform(-3, 0) for _ in range(n)]
+            xs[a] = xs[b] = r.choice([max(xs), min(xs), xs[n // 3]])
+            w = normalise(xs)
+            out.append(("rs %d %d 2 0 0 %s" % (r.randrange(1, 2 ** 32), n, " ".join(hexd(x) for x in w)),
+                        {"op": "rs", "style": "tie-first-last", "n": n, "quat": 0, "circ": 0}))
+            ratio = r.choice([0.1, 0.25, 0.5, 0.75])
+            out.append(("rwp %d %d 2 0 0 %s %s" % (r.randrange(1, 2 ** 32), n, hexd(ratio), " ".join(hexd(x) for x in w)),
+                        {"op": "rwp", "style": "tie-first-last", "n": n, "quat": 0, "circ": 0, "ratio": ratio}))
+    return out
+
+
 RATIOS = [0.0, 0.1, 0.25, 0.3, 0.5, 0.7, 0.75, 0.9, 0.99]
 
 
@@ -146,6 +241,31 @@ def gen_rwp(r, tier):
         w = gen_logw(r, style, n)
     line = "rwp %d %d %d %d %d %s %s" % (seed, n, lin, circ, quat, hexd(ratio), " ".join(hexd(x) for x in w))
     return line, {"op": "rwp", "style": style, "n": n, "quat": quat, "circ": circ, "ratio": ratio}
+
+
+def gen_ratio_boundaries(r, want):
+    """(N, ratio) pairs at which N * ratio is an integer in the reals, the floor of the exact and of the rounded double product
+    agree (so floor(ratio N) is unambiguous), but another way of writing the split (from the other side: N - ceil(N (1 - ratio)),
+    or through a rounded quotient) gives a different count: the boundary of `static_cast<int>(std::floor(cols * prior_ratio_))`"""
+    pool = []
+    for n in range(2, 201):
+        for j in range(1, 100):
+            if (n * j) % 100:
+                continue
+            ratio = j / 100.0
+            k = int(math.floor(n * ratio))
+            if math.floor(Fraction(ratio) * n) != k:
+                continue
+            alt = [n - int(math.ceil(n * (1.0 - ratio))), int(math.floor(n / (1.0 / ratio))), int(n - math.floor(n * (1.0 - ratio) + 0.5))]
+            if any(a != k for a in alt):
+                pool.append((n, ratio))
+    out = []
+    for n, ratio in r.sample(pool, min(want, len(pool))):
+        lin, circ, quat = layout(r)
+        w = gen_logw(r, r.choice(["random", "uniform", "zeros", "ties"]), n)
+        out.append(("rwp %d %d %d %d %d %s %s" % (r.randrange(1, 2 ** 32), n, lin, circ, quat, hexd(ratio), " ".join(hexd(x) for x in w)),
+                    {"op": "rwp", "style": "ratio-boundary", "n": n, "quat": quat, "circ": circ, "ratio": ratio}))
+    return out
 
 
 PRIOR_KINDS = {1, 6, 7, 9, 10, 12, 13}
@@ -521,9 +641,12 @@ def check_rwp(line, meta, h, d, dq, stats):
                 tol = Fraction(m * EPS + 4 * EPS * maxl)
                 lws = sorted(logw)[k:]
                 agree = 0
+                span = {}
+                for i, v in enumerate(lws):
+                    span.setdefault(v, [i, i])[1] = i
                 for jj in range(m):
                     wj = logw[ids[k + jj] - 1]
-                    cls = [i for i in range(m) if lws[i] == wj]
+                    cls = span.get(wj)
                     if not cls:
                         probs.append(("prop", "lowest-not-replaced", "output %d copies a particle that is not among the kept ones" % (k + jj)))
                         break
@@ -585,7 +708,7 @@ def check_rwp(line, meta, h, d, dq, stats):
 def run(ctx):
     ctx.proof_stage()
     if not ctx.quick():
-        bad = vlib.leanchecker(['BFL.Props.C07', 'BFL.Proofs.Resample', 'BFL.Proofs.ResampleList', 'BFL.Proofs.ResampleLog', 'BFL.Proofs.ResampleSet', 'BFL.Proofs.ResamplePrior', 'BFL.Model.Resample'])
+        bad = vlib.leanchecker(['BFL.Props.C07', 'BFL.Proofs.Resample', 'BFL.Proofs.ResampleList', 'BFL.Proofs.ResampleLog', 'BFL.Proofs.ResampleSet', 'BFL.Proofs.ResamplePrior', 'BFL.Proofs.ResampleSortIndep', 'BFL.Model.Resample'])
         ctx.coverage["leanchecker"] = "failed: %s" % bad if bad else "all modules re-checked"
         if bad:
             ctx.violation("leanchecker", "leanchecker rejects compiled modules: %s" % bad, {"modules": bad}, no_input=True)
@@ -623,11 +746,33 @@ def run(ctx):
         for hot in range(-1, n):
             w = [-math.log(n)] * n if hot < 0 else [0.0 if i == hot else NEG_INF for i in range(n)]
             cases.append(("rs %d %d 1 1 0 %s" % (r.randrange(1, 2 ** 32), n, " ".join(hexd(x) for x in w)), {"op": "rs", "style": "small", "n": n, "quat": 0, "circ": 1}))
+    if not replay_line:
+        gt = ctx.gen("pf-ties").r
+        cases += gen_tie_positions(gt, ctx.tier)
+        cases += gen_ratio_boundaries(gt, ctx.n(40, 200))
     cases += [gen_rs(r, ctx.tier) for _ in range(n_rs)]
     cases += [gen_rwp(r, ctx.tier) for _ in range(n_rwp)]
     cases += [gen_seq(r, ctx.tier) for _ in range(n_seq)]
     if not replay_line:
-        cases += [gen_large(r, ctx.tier, "rs") for _ in range(ctx.n(6, 10))] + [gen_large(r, ctx.tier, "rwp") for _ in range(ctx.n(2, 4))]
+        cases += [gen_large(r, ctx.tier, "rs") for _ in range(ctx.n(3, 10))] + [gen_large(r, ctx.tier, "rwp") for _ in range(ctx.n(1, 4))]
+        cases += gen_chunk(ctx.gen("pf-chunk").r, ctx.tier)
+    # configuration of every object-level case from the MODEL of construction and hand-over (RsCtor.build, RsCfg.run): the
+    # expected per-call behaviour (ratio, seed, class, draws consumed) is the model's, cross-checked with the table above
+    obj_bad = []
+    seq_idx = [i for i, (l, m) in enumerate(cases) if m["op"] == "seq"]
+    cfg_out = vlib.run_driver(["seqcfg %d %s %d %d" % (cases[i][1]["kind"], cases[i][0].split()[3], int(cases[i][0].split()[1]), len(cases[i][1]["calls"])) for i in seq_idx]) if seq_idx else []
+    n_cfg = 0
+    for i, d in zip(seq_idx, cfg_out):
+        line, meta = cases[i]
+        dt = d.split()
+        want = (1 if meta["kind"] % 100 in PRIOR_KINDS else 0, hexd(meta["ratio"]) if meta["kind"] % 100 in PRIOR_KINDS else None, meta["seed"], len(meta["calls"]))
+        got = (int(dt[1]), dt[2] if int(dt[1]) else None, int(dt[3]), int(dt[4])) if dt[:1] == ["ok"] and len(dt) == 5 else None
+        if got != want:
+            obj_bad.append(("object-config-model", "configuration of the object in use (class, ratio, seed, draws): model %s, expected %s" % (got, want), line, d))
+        else:
+            n_cfg += 1
+            meta["ratio"] = unhex(dt[2]) if got[0] else meta["ratio"]
+            meta["seed"] = got[2]
     lines = [c[0] for c in cases]
     hout, logs = vlib.run_harness(binary, lines)
     n_inputs = len(cases)
@@ -672,8 +817,8 @@ def run(ctx):
                 probs = check_rs(line, meta, h, d0, d1, d2, stats)
             else:
                 probs = check_rwp(line, meta, h, d0, d1, stats)
-        except (IndexError, ValueError) as ex:
-            probs = [("prop", "malformed-output", "harness output not parseable (%s): %s" % (ex, h[:120]))]
+        except (IndexError, ValueError, OverflowError, ZeroDivisionError, KeyError, TypeError) as ex:
+            probs = [("prop", "malformed-output", "harness output not parseable / not finite (%r): %s" % (ex, h[:120]))]
         if "call" in meta:
             kname = KIND_NAMES.get(meta["kind"] % 100, "?") + (" handed over after the first call" if meta["kind"] >= 100 else "")
             probs = [(kind, key2, "call %d on one object [%s]: %s" % (meta["call"], kname, what)) for kind, key2, what in probs]
@@ -684,6 +829,8 @@ def run(ctx):
                 stats["object_kind:" + kname] = stats.get("object_kind:" + kname, 0) + 1
         for kind, key2, what in probs:
             (corr_bad if kind == "corr" else prop_bad).append((key2, what, meta.get("real_line", line), h))
+    corr_bad += obj_bad
+    stats["object_configurations_from_model"] = n_cfg
     prop_bad.sort(key=lambda v: len(v[2]))          # report the smallest failing input of each kind
     corr_bad.sort(key=lambda v: len(v[2]))
     seen = set()
@@ -701,9 +848,12 @@ def run(ctx):
         "evaluations": len(cases), "input_lines": n_inputs, "distinct_nontrivial": len(nontrivial & distinct),
         "rule": "systematic resampling (rs) and prior-mixing resampling (rwp) on seeded random log-weight vectors: uniform, one-hot, exact zeros (-inf), "
                 "object-level sequences (seq: ONE object built by each constructor overload of Resampling / ResamplingWithPrior, also obtained by copy / move construction / assignment before or after its first call, used through Resampling*, serving 2..5 successive calls with different N, layouts and weights, twin generator in lock-step, every predicate per call), spanning 300 orders of magnitude, dominated, ties, near 1/N, deliberately sub-normalised (clamp branch), crafted u_0 == c_0 boundary, "
+                "exact ties at every pair of positions and every rank for N = 2..6 (prior variant: cut at every rank), w(1) == w(N-1) / w(0) == w(N-1); particle counts at every multiple of 256 up to 4096 (and +-1; prior variant with N and/or N - k multiples of 256) in every run; "
                 "N in 1..%d plus large sets (2048..6000 quick, up to 65536 thorough, with long tails of zero-weight particles), particle contents at scales 2^-70 .. 2^40 incl. exactly zero mean / covariance blocks, random 32-bit seeds, layouts lin 0..3 / circ 0..2 / quaternion, ratios in [0,1); non-trivial = N > 1; distinct = distinct input lines"
                 % (200 if ctx.quick() else 400),
         "samples": [cases[0][0][:300], cases[len(cases) // 2][0][:300], lines[-1][:300]],
+        "chunk_boundary_particle_counts": sorted(set(m["n"] for l, m in cases if m["style"].startswith("chunk"))),
+        "tie_position_cases": sum(1 for l, m in cases if m["style"].startswith("tie-")),
         "style_histogram": hist, "size_histogram": nhist, "branch_and_numeric_counters": stats,
         "traces_validated_against_impl": len(cases),
         "model_vs_impl_disagreements": len(corr_bad), "property_failures_on_impl": len(prop_bad),
